@@ -95,6 +95,11 @@ pub struct Sc {
     /// What such a call leaves behind must not reach the verification.
     #[serde(default)]
     pub neighbour: Option<Neighbour>,
+    /// 0: one caller thread.  Otherwise a second caller thread exists and the record is
+    /// parsed (bit 0) and each verification call number i made by it when bit i mod 63
+    /// is set: the record is built on one thread and used on the other
+    #[serde(default)]
+    pub migrate: u64,
 }
 
 #[derive(Clone, Debug, Serialize, Deserialize)]
@@ -821,6 +826,7 @@ impl Property for C12 {
             } else {
                 None
             },
+            migrate: if rng.chance(1, 8) { rng.next_u64() | (1 << 63) } else { 0 },
         }
     }
 
@@ -848,6 +854,13 @@ impl Property for C12 {
             }
             ctx.step("store", f.content.len() as u64, model_is_patch(&f.name) as u64);
         }
+        let helper: Option<Helper> = if sc.migrate != 0 && is_send_sync!(Distinfo) {
+            ctx.fault("caller_thread_switch");
+            Some(Helper::new())
+        } else {
+            None
+        };
+        let mask = sc.migrate;
         if let Some(nb) = &sc.neighbour {
             use crate::seams::{ReadStep, SimReader};
             ctx.fault("neighbour_call_failed");
@@ -968,11 +981,12 @@ impl Property for C12 {
                 ctx.probe("verified-with-the-inserted-distinfo-itself");
                 di
             } else {
-                Distinfo::from_bytes(&di.as_bytes())
+                on_thread!(helper, mask, 0u64, Distinfo::from_bytes(&di.as_bytes()))
             }
         } else {
-            Distinfo::from_bytes(&render_distinfo(&sc.files, &recs))
+            on_thread!(helper, mask, 0u64, Distinfo::from_bytes(&render_distinfo(&sc.files, &recs)))
         };
+        let mut mcall = 0u64;
 
         let recorded: Vec<String> = sc.files.iter().map(|f| f.name.clone()).collect();
         let nrounds = sc.faults.len() + 1;
@@ -1207,7 +1221,8 @@ impl Property for C12 {
 
                 // size
                 let disk_len = on_disk.map(|c| c.len()).unwrap_or(0);
-                let got = metered!(ctx, 64, distinfo.verify_size(&p));
+                mcall += 1;
+                let got = on_thread!(helper, mask, mcall, metered!(ctx, 64, distinfo.verify_size(&p)));
                 match (rec.size, on_disk) {
                     (Some(n), Some(c)) if c.len() as u64 == n => {
                         ctx.probe("verdict-size-ok");
@@ -1284,7 +1299,8 @@ impl Property for C12 {
 
                 // each of the six algorithms
                 for a in 0..6 {
-                    let got = metered!(ctx, disk_len + 64, distinfo.verify_checksum(&p, ALGS[a]));
+                    mcall += 1;
+                    let got = on_thread!(helper, mask, mcall, metered!(ctx, disk_len + 64, distinfo.verify_checksum(&p, ALGS[a])));
                     let recd = rec.checksums.iter().find(|(x, _)| *x == a).map(|(_, h)| h.clone());
                     match (recd, on_disk) {
                         (Some(h), Some(c)) => {
@@ -1370,7 +1386,8 @@ impl Property for C12 {
                 }
 
                 // verify_checksums: one result per recorded checksum, in order
-                let all = metered!(ctx, (disk_len + 64) * rec.checksums.len().max(1), distinfo.verify_checksums(&p));
+                mcall += 1;
+                let all = on_thread!(helper, mask, mcall, metered!(ctx, (disk_len + 64) * rec.checksums.len().max(1), distinfo.verify_checksums(&p)));
                 ensure!(
                     all.len() == rec.checksums.len(),
                     "verify-checksums-count",
@@ -1509,6 +1526,9 @@ impl Property for C12 {
         if sc.via_api {
             push!(Sc { via_api: false, ..sc.clone() });
         }
+        if sc.migrate != 0 {
+            push!(Sc { migrate: 0, ..sc.clone() });
+        }
         if sc.neighbour.is_some() {
             push!(Sc { neighbour: None, ..sc.clone() });
         }
@@ -1553,6 +1573,7 @@ impl Property for C12 {
                         }],
                         lookups: vec![],
                         via_api: false,
+                        migrate: 0,
                         ..sc.clone()
                     });
                 }
